@@ -63,6 +63,8 @@ def sweep_bounds(tier):
         "TwoLevel many snapshots": {"n": [3, 5, 8, 12, 20] if q else [3, 4, 5, 6, 8, 10, 12, 18, 20, 24, 32],
                                     "binomial_snapshots": [6, 7, 9, 12, 16, 17, 20, 30]},
         "TwoLevel period sweep": {"period": [1, 130 if q else 200], "n": "period+1 and 2*period+1", "binomial_snapshots": [0, 1]},
+        "many passes": {"passes": 6 if q else 9, "classes": "SingleMemory, SingleDiskCopy n in {1,2,5}/{1,2,3,5,9}, TwoLevel same n "
+                        "with b<=2 and n=13 with periods {4,5,13}"},
         "int-cache boundary": {"n": [256, 257] if q else [255, 256, 257, 300], "classes": "all, one or two small configurations each"},
         "Revolve/DiskRevolve/PeriodicDiskRevolve": {"n": [40, 64] if q else [40, 52, 64, 80, 100, 128],
                                                     "ram<=": "6/5/4" if q else "8/7/6"}}
@@ -112,6 +114,13 @@ def sweep_jobs(tier, classes=None, passes=None):
         add("TwoLevel", n, 2, {"b_list": [6, 7, 9, 12, 16, 17, 20, 30], "tag": "/manyb"}, w=n * 8)
     for lo in range(1, 131 if q else 201, 10):
         add("TwoLevel", None, 2, {"period_sweep": [lo, lo + 9], "b_list": [0, 1], "tag": "/periods%d" % lo}, w=lo)
+    # many adjoint passes of the multi-pass schedules (drift that needs more than 3 passes)
+    mp = 6 if q else 9
+    add("SingleMemory", None, mp, {"tag": "/passes%d" % mp}, w=2)
+    for n in (1, 2, 5) if q else (1, 2, 3, 5, 9):
+        add("SingleDiskCopy", n, mp, {"tag": "/passes%d" % mp}, w=n)
+        add("TwoLevel", n, mp, {"bmax": 2, "tag": "/passes%d" % mp}, w=n * 6)
+    add("TwoLevel", 13, mp, {"periods": [4, 5, 13], "b_list": [1, 3], "tag": "/passes%d" % mp}, w=60)
     # CPython caches small ints up to 256: one probe on either side for every class
     for n in (256, 257) if q else (255, 256, 257, 300):
         add("Multistage", n, 1, {"ram_max": 1, "disk_max": 2, "tag": "/intcache"}, w=n)
